@@ -516,6 +516,21 @@ func runSite(mode string) sim.RigFunc {
 		put("static/t.html.br", cached("br", tpl, br))
 		put("static/t.html.zst", cached("zs", tpl, zs))
 		r.siblings["/static/t.html"] = []string{"gz", "br", "zst"}
+		// the same page as the index of a directory (requested by the directory's name, without an extension)
+		os.MkdirAll(filepath.Join(r.root, "static", "tdir"), 0755)
+		put("static/tdir/index.html", tpl)
+		put("static/tdir/index.html.gz", cached("gz", tpl, gz))
+		put("static/tdir/index.html.br", cached("br", tpl, br))
+		put("static/tdir/index.html.zst", cached("zs", tpl, zs))
+		r.static["/static/tdir/"] = tpl
+		r.siblings["/static/tdir/"] = []string{"gz", "br", "zst"}
+		// a directory whose name looks like a precompressed copy of a file that has none
+		for _, f := range []string{"static/a.txt", "static/c.css"} {
+			if len(r.siblings["/"+f]) == 0 {
+				os.MkdirAll(filepath.Join(r.root, f+".gz"), 0755)
+				os.MkdirAll(filepath.Join(r.root, f+".br"), 0755)
+			}
+		}
 		// the site's own Casketfile lies inside the root, with precompressed copies next to it (a
 		// deployment step that compresses everything): hidden, whatever codings the client offers
 		conf := []byte("# the configuration of this site: not for visitors\n" + strings.Repeat("SITE-CONF-SECRET\n", 30))
@@ -849,7 +864,7 @@ func (r *siteRig) genReq(id, site string) *sreq {
 	// path class
 	switch cls := st.Draw(12); {
 	case cls == 0:
-		q.path = []string{"/static/a.txt", "/static/b.html", "/static/c.css", "/static/missing.txt", "/static/site.conf", "/static/t.html", "/static/t.html"}[st.Draw(7)]
+		q.path = []string{"/static/a.txt", "/static/b.html", "/static/c.css", "/static/missing.txt", "/static/site.conf", "/static/t.html", "/static/t.html", "/static/tdir/"}[st.Draw(8)]
 		sc.mode = "static"
 	case cls == 1 && r.hasStatus:
 		q.path = "/teapot"
@@ -1446,7 +1461,7 @@ func (r *siteRig) judgeBody(q *sreq, resp *sim.Resp, dec []byte, derr error, bod
 		// the file as it is; a page with template actions rendered if templates covers it
 		if want, ok := r.static[q.path]; ok {
 			how := "file"
-			if r.tplStatic && q.path == "/static/t.html" {
+			if r.tplStatic && (q.path == "/static/t.html" || q.path == "/static/tdir/") {
 				want, how = bytes.Replace(want, []byte("{{.Method}} {{/* server side only */}}"), []byte("GET "), 1), "rendered-template"
 			}
 			if !bytes.Equal(dec, want) {
